@@ -14,7 +14,9 @@ package main
 
 import (
 	"fmt"
+	"os"
 	"strings"
+	"time"
 
 	"github.com/richardwilkes/toolbox/eval"
 	"github.com/richardwilkes/toolbox/xmath/fixed"
@@ -100,6 +102,15 @@ func (a *structArea) Gen(r *hx.Rng, n int, _ string, emit func(string)) {
 			emit("reset")
 		}
 		var s string
+		if i%40 == 7 { // size thresholds
+			s = bigExpr(r)
+			if r.Chance(1, 4) && len(s) > 2 { // and damaged
+				k := r.Intn(len(s))
+				s = s[:k] + s[k+1:]
+			}
+			emit("s " + hx.Hex([]byte(s)))
+			continue
+		}
 		switch r.Intn(10) {
 		case 0, 1, 2, 3:
 			s = malformed(r)
@@ -121,8 +132,12 @@ func (a *structArea) Gen(r *hx.Rng, n int, _ string, emit func(string)) {
 
 func argText(r *hx.Rng) string {
 	var sb strings.Builder
-	for i, n := 0, r.Intn(10); i < n; i++ {
-		sb.WriteString(hx.Pick(r, []string{"(", ")", ",", ",", "1", "a b", " ", "max", "\xc3\xa9", "\xff", ",,", "()", "(,)"}))
+	n := r.Intn(10)
+	if r.Chance(1, 30) {
+		n = r.Range(60, 400)
+	}
+	for i := 0; i < n; i++ {
+		sb.WriteString(hx.Pick(r, []string{"(", ")", ",", ",", "1", "a b", " ", "max", "\xc3\xa9", "\xff", ",,", "()", "(,)", "f(1,2)", "f(g(1),h(2,3))+k(4,5)", "((", "))"}))
 	}
 	return sb.String()
 }
@@ -150,6 +165,10 @@ func (a *structArea) Run(line string) string {
 		fresh := showSym(newSymbolic(k == 1).Evaluate(expr))
 		if got != fresh {
 			return "reuse-mismatch reused=" + got + " fresh=" + fresh
+		}
+		// the same table assembled with the exported constructors OpenParen … Power
+		if ctor := showSym(newCtorSymbolic().Evaluate(expr)); k == 0 && ctor != got {
+			return "constructor-mismatch table=" + got + " constructors=" + ctor
 		}
 		return got
 	case "a":
@@ -181,6 +200,9 @@ func (a *wfArea) Gen(r *hx.Rng, n int, _ string, emit func(string)) {
 
 func (a *wfArea) Run(line string) string {
 	f := strings.Fields(line)
+	if len(f) == 1 && f[0] == "c" {
+		return callbackProbes()
+	}
 	if len(f) != 5 || f[0] != "w" {
 		return "bad-op"
 	}
@@ -223,7 +245,13 @@ type valArea struct{ cfgs []*config }
 func (a *valArea) Gen(r *hx.Rng, n int, _ string, emit func(string)) {
 	for i := 0; i < n; i++ {
 		var s string
-		switch r.Intn(14) {
+		switch r.Intn(15) {
+		case 14: // size thresholds; long and deep inputs are few but present in every run
+			if i%8 == 0 {
+				s = bigExpr(r)
+			} else {
+				s = literalExpr(r)
+			}
 		case 12, 13: // comparison / logical results used as numbers
 			s = boolExpr(r)
 		case 10, 11: // literals that are hard to convert (rounding midpoints, range limits, syntax edges)
@@ -262,8 +290,12 @@ func (a *valArea) Run(line string) string {
 	}
 	expr := string(hx.UnHex(f[1]))
 	var outs []string
-	for _, c := range a.cfgs {
-		res := c.check(expr, f[2:])
+	pick := 0
+	for _, b := range []byte(expr) {
+		pick = (pick*31 + int(b)) % 1000003
+	}
+	for i, c := range a.cfgs {
+		res := c.check(expr, f[2:], i == pick%len(a.cfgs))
 		if strings.HasPrefix(res, "FAIL") {
 			return res
 		}
@@ -272,6 +304,76 @@ func (a *valArea) Run(line string) string {
 	return "ok " + strings.Join(outs, " ")
 }
 
+// guarded gives every line a deadline: an evaluation that does not return within it is reported as `hang` (the
+// goroutine is abandoned and the area gets fresh evaluators); after two hangs the rest of the stream is skipped, and
+// the lines that hung are remembered in the working directory so that re-runs of the same stream (minimisation) answer
+// at once — a looping mutant costs seconds.  A panic inside the evaluation is reported as `panic` (the recover of
+// hx.Main only covers its own goroutine).
+type guarded struct {
+	name  string
+	mk    func() hx.Area
+	inner hx.Area
+	hangs int
+	seen  map[string]bool
+}
+
+const (
+	lineDeadline = 4 * time.Second
+	hangFile     = "c09-hangs.txt"
+)
+
+func (g *guarded) Gen(r *hx.Rng, n int, tier string, emit func(string)) {
+	g.mk().Gen(r, n, tier, emit)
+}
+
+func (g *guarded) Run(line string) string {
+	if g.hangs >= 2 {
+		return "skipped-after-crash"
+	}
+	if g.seen == nil {
+		g.seen = map[string]bool{}
+		if b, err := os.ReadFile(hangFile); err == nil {
+			for _, l := range strings.Split(string(b), "\n") {
+				g.seen[l] = true
+			}
+		}
+	}
+	key := g.name + "|" + line
+	if g.seen[key] {
+		g.hangs++
+		return "hang"
+	}
+	if g.inner == nil {
+		g.inner = g.mk()
+	}
+	inner := g.inner
+	done := make(chan string, 1)
+	go func() {
+		defer func() {
+			if r := recover(); r != nil {
+				done <- "panic"
+			}
+		}()
+		done <- inner.Run(line)
+	}()
+	select {
+	case out := <-done:
+		return out
+	case <-time.After(lineDeadline):
+		g.hangs++
+		g.inner = nil // the abandoned goroutine still owns the evaluators of this instance
+		if f, err := os.OpenFile(hangFile, os.O_APPEND|os.O_CREATE|os.O_WRONLY, 0o644); err == nil {
+			_, _ = f.WriteString(key + "\n")
+			_ = f.Close()
+		}
+		return "hang"
+	}
+}
+
 func main() {
-	hx.Main(map[string]hx.Area{"struct": &structArea{}, "wf": &wfArea{}, "val": &valArea{}})
+	hx.Main(map[string]hx.Area{
+		"struct": &guarded{name: "struct", mk: func() hx.Area { return &structArea{} }},
+		"wf":     &guarded{name: "wf", mk: func() hx.Area { return &wfArea{} }},
+		"val":    &guarded{name: "val", mk: func() hx.Area { return &valArea{} }},
+	})
 }
